@@ -153,3 +153,40 @@ theorem covL_scale (s : ℝ) (P : Pairs d) : covL (scaleP s P) = (s * s) • cov
   intro q _; ring
 
 end Romea.Registration
+
+namespace Romea.Registration
+open Matrix
+
+variable {d : Nat}
+
+theorem meanL_map_scale (s : ℝ) (L : List (Fin d → ℝ)) :
+    meanL (L.map (fun x => fun i => x i * s)) = fun i => meanL L i * s := by
+  funext i
+  simp only [meanL, List.map_map, Function.comp_def, List.length_map]
+  rw [list_sum_mul_const]; ring
+
+theorem scatterL_scale (s : ℝ) (L : List (Fin d → ℝ)) :
+    scatterL (L.map (fun x => fun i => x i * s)) = (s * s) • scatterL L := by
+  ext i k
+  rw [Matrix.smul_apply]
+  simp only [scatterL, momentL, Matrix.of_apply, meanL_map_scale, List.map_map, Function.comp_def, smul_eq_mul]
+  rw [← list_sum_const_mul]
+  apply list_sum_congr
+  intro q _; ring
+
+theorem scaleP_fst (s : ℝ) (P : Pairs d) : (scaleP s P).map Prod.fst = (P.map Prod.fst).map (fun x => fun i => x i * s) := by
+  simp [scaleP, List.map_map, Function.comp_def]
+
+theorem rigid_scale {Q : Matrix (Fin d) (Fin d) ℝ} {τ : Fin d → ℝ} {P : Pairs d} (s : ℝ) (h : Rigid Q τ P) :
+    Rigid Q (fun i => τ i * s) (scaleP s P) := by
+  intro q hq
+  simp only [scaleP, List.mem_map] at hq
+  obtain ⟨q0, hq0, rfl⟩ := hq
+  funext i
+  have := congrFun (h q0 hq0) i
+  simp only [Pi.add_apply, Matrix.mulVec, dotProduct] at this ⊢
+  rw [this, add_mul, Finset.sum_mul]
+  congr 1
+  apply Finset.sum_congr rfl; intro k _; ring
+
+end Romea.Registration
